@@ -602,3 +602,117 @@ def assert_library_location():
     paths = [os.path.realpath(p) for p in okdmr.dmrlib.__path__]
     if not any(p.startswith(REPO + os.sep) for p in paths):
         raise HarnessError(f"okdmr.dmrlib imported from {paths}, expected under {REPO}")
+
+
+# ----------------------------------------------------------------------------------------------
+# Stateful (model-based) checks
+
+
+def replay_ops_oracle(runner_factory: Callable[[], Any]) -> Callable[[Any], None]:
+    """Oracle for history cases {"ops": [...]}: feed every op to a fresh runner (model + system under test).  The runner's
+    ``apply(op)`` raises Fail; optional ``finish()`` runs end-of-history checks."""
+
+    def oracle(case):
+        r = runner_factory()
+        try:
+            for op in case["ops"]:
+                r.apply(unjson(op) if getattr(r, "UNJSON_OPS", False) else op)
+            if hasattr(r, "finish"):
+                r.finish()
+        finally:
+            if hasattr(r, "close"):
+                r.close()
+
+    return oracle
+
+
+def make_machine(name: str, runner_factory: Callable[[], Any], rules: Dict[str, Any], initial_ops: Any = None):
+    """Build a hypothesis RuleBasedStateMachine whose rules draw one plain-JSON op each and hand it to the runner.
+    ``rules``: rule name -> strategy of ops, or (strategy, precondition(runner) -> bool).
+    ``initial_ops``: optional strategy of a list of ops applied first (scripted prefixes).
+    Used through Ctx.state_machine (which injects vp_ctx / vp_tally / vp_tolerated / vp_sub)."""
+    from hypothesis import strategies as st
+    from hypothesis.stateful import RuleBasedStateMachine, initialize, precondition, rule
+
+    class _Base(RuleBasedStateMachine):
+        vp_ctx: Ctx = None
+        vp_tally: Tally = None
+        vp_tolerated: set = set()
+        vp_sub: str = ""
+
+        def __init__(self):
+            super().__init__()
+            self.ops: List[Any] = []
+            self.dead = False
+            self.runner = runner_factory()
+
+        def do(self, op):
+            if self.dead:
+                return
+            self.ops.append(jsonable(op))
+            fail = None
+            try:
+                self.runner.apply(op)
+            except Fail as f0:
+                fail = f0
+            except Exception as e:
+                if not lib_raised(e):
+                    raise
+                fail = Fail("no_unexpected_exception", observed=f"{type(e).__name__}: {e}", expected="no exception", klass=exc_klass(e))
+            if fail is not None:
+                self._failed(fail)
+
+        def _failed(self, fail: Fail):
+            self.dead = True  # model and implementation may have diverged: stop judging this history
+            ctx, t, sub = self.vp_ctx, self.vp_tally, self.vp_sub
+            case = {"ops": list(self.ops)}
+            bucket = f"{sub}|{fail.clause}|{fail.klass}"
+            if bucket in self.vp_tolerated:
+                return
+            if ctx.findings.match(ctx.prop, sub, fail, case, ctx.predicates):
+                ctx.judge(sub, case, fail, t)
+                return
+            fail.case = case
+            raise fail
+
+        def teardown(self):
+            try:
+                if not self.dead and hasattr(self.runner, "finish"):
+                    fail = None
+                    try:
+                        self.runner.finish()
+                    except Fail as f0:
+                        fail = f0
+                    if fail is not None:
+                        self._failed(fail)
+                r, t, sub = self.runner, self.vp_tally, self.vp_sub
+                if t is not None and self.ops:
+                    nt = bool(r.nontrivial()) if hasattr(r, "nontrivial") else len(self.ops) >= 2
+                    t.case(sub, key={"ops": self.ops} if len(self.ops) <= 40 else {"ops_digest": digest(self.ops).hex(), "n_ops": len(self.ops), "first_ops": self.ops[:8]}, nontrivial=nt)
+                    t.extra["history_steps"] = t.extra.get("history_steps", 0) + len(self.ops)
+                    if hasattr(r, "classes"):
+                        for c in r.classes():
+                            t.cls(sub, c)
+            finally:
+                if hasattr(self.runner, "close"):
+                    self.runner.close()
+
+    ns = {}
+    if initial_ops is not None:
+
+        def _init(self, ops):
+            for op in ops:
+                self.do(op)
+
+        ns["vp_initial"] = initialize(ops=initial_ops)(_init)
+    for rname, spec in rules.items():
+        strat, pre = spec if isinstance(spec, tuple) else (spec, None)
+
+        def _rule(self, op):
+            self.do(op)
+
+        fn = rule(op=strat)(_rule)
+        if pre is not None:
+            fn = precondition(lambda self, _pre=pre: (not self.dead) and _pre(self.runner))(fn)
+        ns["rule_" + rname] = fn
+    return type(name, (_Base,), ns)
